@@ -192,6 +192,10 @@ func newServer(c *mon.Case, w *simnet.World, idx int, st header.Store[H], opts .
 	return srv
 }
 
+// kitViaParams: when set (by a case, for its own duration), newExchange applies all options to a
+// DefaultClientParameters() value and hands that over with WithParams.
+var kitViaParams bool
+
 func newExchange(c *mon.Case, w *simnet.World, idx int, trusted []int, opts ...p2p.Option[p2p.ClientParameters]) *p2p.Exchange[H] {
 	gater, err := conngater.NewBasicConnectionGater(dssync.MutexWrap(ds.NewMapDatastore()))
 	if err != nil {
@@ -202,6 +206,13 @@ func newExchange(c *mon.Case, w *simnet.World, idx int, trusted []int, opts ...p
 		tp = append(tp, w.Hosts[t].ID())
 	}
 	opts = append([]p2p.Option[p2p.ClientParameters]{p2p.WithNetworkID[p2p.ClientParameters](simnet.NetworkID), p2p.WithChainID(simnet.NetworkID)}, opts...)
+	if kitViaParams {
+		params := p2p.DefaultClientParameters()
+		for _, o := range opts {
+			o(&params)
+		}
+		opts = []p2p.Option[p2p.ClientParameters]{p2p.WithParams(params)}
+	}
 	ex, err := p2p.NewExchange[H](w.Hosts[idx], tp, gater, opts...)
 	if err != nil {
 		c.T.Fatalf("exchange: %v", err)
